@@ -93,3 +93,24 @@ Theorem C04_rev_is_rev : forall env e a b, good' env e -> wf_win' a b ->
   disjoint_sorted (slice env e a b false) -> slice env e a b true = rev (slice env e a b false).
 Proof. exact Reverse2.C04_rev_is_rev. Qed.
 Print Assumptions C04_rev_is_rev.
+
+(* ---- tie C: time negation as the code has it ----
+   g_neg / g_negate_interval / g_negate_stream are the Gallina translations of the SOURCE TEXT of
+   core._neg, _negate_interval, _negate_stream, regenerated from /repo on every run *)
+From CG Require Import Gen.Source Proofs.GenEq.
+
+Theorem C04_source_negation_is_model :
+  (forall v, g_neg v = negO v) /\ (forall i, g_negate_interval i = neg_ivl i) /\
+  (forall l, g_negate_stream l = neg_stream l).
+Proof. exact (conj g_neg_eq (conj g_negate_interval_eq g_negate_stream_eq)). Qed.
+Print Assumptions C04_source_negation_is_model.
+
+Theorem C04_source_negate_involutive : forall l, g_negate_stream (g_negate_stream l) = l.
+Proof. intro l. rewrite !g_negate_stream_eq. apply C04_negate_involutive. Qed.
+Print Assumptions C04_source_negate_involutive.
+
+(* the reverse complement is computed by the forward sweep in negated time, as the model says *)
+Theorem C04_source_complement_reverse_is_model : forall src a b,
+  g_compl_fetch src a b true = neg_stream (compl_sweep (neg_stream (src a b true)) (negO b) (negO a)).
+Proof. intros. apply (g_compl_fetch_eq src a b true). Qed.
+Print Assumptions C04_source_complement_reverse_is_model.
